@@ -150,10 +150,22 @@ TEXT.update({
  },
 })
 
-_NOTYET = "check not built yet in this session (design in DESIGN.md §3); not claimed until its harness has produced a verdict"
-NOT_APPLICABLE = {p: _NOTYET for p in ["C%02d" % i for i in range(1, 37)]}
-NOT_APPLICABLE.update({
+NOT_APPLICABLE = {
+ "C01": "write->read round trip needs DataSetReader over the real StatefulDecoder in the same harness as the writer; text/date value readers exceed 8 GB in CBMC (measured under C07) and the writer->reader harness was at 10 GB after 6 min; writer side is claimed under C04, headers under C03, numeric value readers under C07; the composition is not claimed",
+ "C02": "same kernels as C01 (reader + writer in one harness beyond CBMC's reach here); the keep-lengths writer strategy on reference-encoded shapes is part of C04",
+ "C06": "lazy vs eager reader comparison needs two full readers over the real StatefulDecoder per harness; the collector needs BufReader + global registry + dictionary; beyond both engines as built",
+ "C09": "group-length arithmetic of FileMetaTableBuilder / ApplyOp was planned on Engine M with length-abstract strings; not built in this session, so nothing is claimed",
+ "C10": "the codecs are the third-party `encoding` crate behind trait objects (one symbolic character: no verdict in 900 s on Kani; not MIR of the repository); the term<->set wiring is a finite concrete table with no quantifier for a solver",
+ "C13": "InMemDicomObject::apply works on BTreeMap and nested Vec<InMemDicomObject>; Kani cost estimated beyond 24 GB, Engine M BTreeMap vocabulary not built",
+ "C19": "lossless transcoding goes through the global registry, a file object and image codecs (flate2, jpeg): no unit within reach; UncompressedAdapter composition not built",
+ "C20": "RLE decode_frame on 2 pixels had no verdict in 900 s on Kani (Vec::resize, Cursor, io::copy, read_to_end); the Engine M vocabulary for these was not built",
+ "C23": "serde_json::Value deserialisation (maps, strings of data-dependent length) exceeded 24 GB in SAT on Kani for one element; the dicom-json visitor side was not encoded on Engine M",
+ "C27": "read_pdu_from_wire works on BufReader + BytesMut (pointer-rich, bytes::Bytes pointer tagging defeats CBMC's pointer model as measured under C25); not built",
+ "C28": "acceptor negotiation over Vec<String> needs the global registry and a hook into process_a_association_rq; Engine M vocabulary for it was not built",
+ "C30": "release/abort conformance needs associations over a harness stream (hook) and a symbolic peer; not built; true two-peer interleavings are outside both engines",
+ "C31": "command_from_element_iter arithmetic was planned on Engine M (BTreeMap with concrete keys, calculate_byte_len); not built in this session",
  "C32": "file-system effect of a bin crate's TCP loop (sockets, threads, global registry, write_to_file); no callable unit to execute symbolically, Kani has no file-system model",
  "C33": "behaviour of the storescu binary over sockets with image transcoding; not encodable within reach of Kani or the MIR interpreter",
+ "C34": "fault injection harnesses (failing writer/reader at a symbolic offset) over StatefulEncoder / write_pdu were designed (kani/common CountW has the failure modes) but not built; io::Error paths with symbolic conditions exploded in the design probes",
  "C35": "two binaries around the image crate's PNG codec and file I/O; third-party loops over whole files, no unit to encode",
-})
+}
